@@ -61,14 +61,16 @@ def str_list(node, what):
     return [e.value for e in node.elts]
 
 
-# fingerprints of the functions whose behaviour Model/Options.v mirrors (pinned commit + fixes)
-PINNED_SMTLIB = {'smtlib._get_sort_aux': 'e6db3208d14a4946', 'smtlib.get_bv_width': 'f2dda2ce4c4d421a', 'smtlib.get_sort': 'efc57b88b88174e1',
+# fingerprints of the functions whose behaviour Model/Options.v and Model/Smtlib.v mirror (pinned commit + fixes up to F74:
+# auto_detect_theories cleans the commands first (F67, mirrored in Model/Relevance.v), get_sort has the comment-operand guard and
+# caches structurally for compound terms only (F64, F69, mirrored in Model/Smtlib.v))
+PINNED_SMTLIB = {'smtlib._get_sort_aux': 'e6db3208d14a4946', 'smtlib.get_bv_width': 'f2dda2ce4c4d421a', 'smtlib.get_sort': '6ca3f57fc9d56574',
                  'smtlib.is_bv_const': '8a00a2fac137537d', 'smtlib.is_bv_sort': '68212cf1d995eeaf', 'smtlib.is_array_sort': 'b4d5d55dc93ee237',
                  'smtlib.is_indexed_operator': 'f10d3441f8557a57', 'smtlib.is_indexed_operator_app': '746602fe9b6a609c',
                  'smtlib.get_indices': 'b8e4f8b45789c5d0', 'smtlib.is_bool_const': '5283f087397e7f55', 'smtlib.is_int_const': '754d5b9456afec21',
                  'smtlib.is_real_const': 'b6ed0a1e06e81742', 'smtlib.is_index': '7f05ddf238eddf70', 'smtlib.get_bv_constant_value': '0c86b6d12ebe8444'}
 PINNED = {'get_mutators': 'e8934e84f8027b04', 'get_initialized_mutator': 'e3385605b34f17c5', 'toggle_theory': '35fe355af5bcf8f3',
-          'toggle_all_theories': 'd4d70cac1d00388b', 'auto_detect_theories': '47881c517263e020',
+          'toggle_all_theories': 'd4d70cac1d00388b', 'auto_detect_theories': 'fe1a4e59d0cd9b6a',
           'collect_mutator_options': 'e78221e38d802816', 'add_mutator_group': '6ef93d2603718d14',
           'TheoryToggleAction': '01233a6d56783e44', 'DisableAllTheoriesAction': '26d182b9391a179c', 'ToggleAction': 'bb5a3907f8c9b0dd'}
 
